@@ -266,7 +266,11 @@ func (g *sgen) keyType(depth int) *Type {
 			return &Type{T: tref.STRUCT, S: g.newStruct(0)}
 		}
 	}
-	return &Type{T: ks[g.r.Intn(len(ks))]}
+	kt := &Type{T: ks[g.r.Intn(len(ks))]}
+	if kt.T == tref.STRING && !g.cfg.NoBinary && g.cfg.Typedefs && g.r.Chance(25) {
+		kt.Bin = true // map<binary, V>: the key text travels verbatim in JSON (no base64 for keys)
+	}
+	return kt
 }
 
 func (g *sgen) typ(depth int) *Type {
@@ -601,7 +605,12 @@ func GenVal(r *h.Rand, t *Type, cfg ValCfg, depth int) *tref.Val {
 			if kc.MaxStr == 0 || kc.MaxStr > 40 {
 				kc.MaxStr = 40
 			}
-			k := GenVal(r, t.Key, kc, depth+1)
+			kt := t.Key
+			if kt.T == tref.STRING && kt.Bin {
+				// binary map keys travel verbatim as JSON member names: text, not arbitrary bytes
+				kt = &Type{T: tref.STRING}
+			}
+			k := GenVal(r, kt, kc, depth+1)
 			if k.T == tref.BYTE && k.I < 0 && !cfg.NegByteKeys {
 				// an int derived from a BYTE is unsigned in dynamicgo (pinned by the repo's TestCastInt8),
 				// so negative byte keys have no single int denotation: keep byte keys in 0..127
